@@ -156,7 +156,8 @@ class Formatter(FormatterInterface):
     def _(self, oper: L.Not | L.Neg) -> str:
         """Format a unary operation."""
         arg = self(oper.arg)
-        if oper.arg.precedence >= oper.precedence:
+        # NOTE: a negative literal starts with '-': '--2.0' would be a decrement in C
+        if oper.arg.precedence >= oper.precedence or arg.startswith(oper.op):
             return f"{oper.op}({arg})"
         return f"{oper.op}{arg}"
 
